@@ -538,29 +538,47 @@ func runOne(r *ev.Run, i int) bool {
 	finished := make(chan struct{})
 	go func() { wg.Wait(); close(finished) }()
 	close(startCh)
-	select {
-	case <-finished:
-	case <-time.After(120 * time.Second):
+	// stuck decides between "deadlocked" (violation) and "slow" (inconclusive) by quiescence: two
+	// goroutine dumps apart, every goroutine of this run blocked with an unchanged stack
+	stuck := func(what string) bool {
 		stop.Store(true)
-		<-auxDone
-		<-auxDone
+		for k := 0; k < 2; k++ {
+			select {
+			case <-auxDone: // helper goroutines may themselves be stuck inside zap (a Sync waiting for a lock never released)
+			case <-time.After(3 * time.Second):
+			}
+		}
 		time.Sleep(500 * time.Millisecond)
 		d1 := mon.Stacks()
 		time.Sleep(1500 * time.Millisecond)
 		d2 := mon.Stacks()
-		if mon.Quiescent(d1, d2, "c04.runOne.func", "BufferedWriteSyncer") {
-			fail("deadlock", "concurrent logging deadlocked (all workers blocked with unchanged stacks, no harness event pending)", map[string]any{"dump": clipS(d2, 6000)})
+		if mon.Quiescent(d1, d2, "c04.runOne.func", "BufferedWriteSyncer", "lockedWriteSyncer") {
+			fail("deadlock", what+": every goroutine of the run is blocked with an unchanged stack and no harness event is pending", map[string]any{"dump": clipS(d2, 6000)})
 		} else {
-			r.Inconclusive(id + ": run exceeded the watchdog but goroutines are still moving")
+			r.Inconclusive(id + ": " + what + ", but goroutines are still moving")
 		}
 		return false
 	}
+	select {
+	case <-finished:
+	case <-time.After(120 * time.Second):
+		return stuck("concurrent logging did not finish")
+	}
 	stop.Store(true)
-	<-auxDone
-	<-auxDone
-	_ = e.logger.Sync()
-	for _, b := range e.bws {
-		_ = b.Stop()
+	finalDone := make(chan struct{})
+	go func() {
+		<-auxDone
+		<-auxDone
+		_ = e.logger.Sync()
+		for _, b := range e.bws {
+			_ = b.Stop()
+		}
+		close(finalDone)
+	}()
+	select {
+	case <-finalDone:
+	case <-time.After(60 * time.Second):
+		return stuck("the final Sync/Stop after all log calls returned did not finish")
 	}
 	r.Eval(1)
 	r.Distinct(fmt.Sprintf("%d|%d|%d|%v", i, s.NG, s.Per, s.Branches))
